@@ -2,6 +2,7 @@ package world
 
 import (
 	"fmt"
+	"math/rand"
 	"regexp"
 	"strconv"
 	"strings"
@@ -212,6 +213,12 @@ func (w *World) exec(m *myconn, q string) *result {
 	}
 	if fa.Kind == "delay" {
 		r.delay = fa.Delay
+	}
+	if w.Jitter > 0 {
+		if w.jrng == nil {
+			w.jrng = rand.New(rand.NewSource(int64(w.Jitter)*7919 + 1))
+		}
+		r.delay += time.Duration(w.jrng.Intn(w.Jitter)) * w.StmtLatency
 	}
 	if fa.DropReply && r.wait == nil {
 		r.drop = true
